@@ -312,4 +312,18 @@ def alias_class(defs, name, depth=6):
     return out
 
 
+def only_called_from(repo, mod, qual, allowed, depth=2, scope=("xonsh",)):
+    """True if every call site of function ``qual`` (matched by bare name, in the whole repository) lies inside a
+    function of ``mod`` that is in ``allowed`` (qualnames) - or in a helper for which the same holds.  An extracted
+    helper of a documented writer counts as part of that writer."""
+    bare = qual.split(".")[-1]
+    if bare.startswith("__"):
+        return False
+    callers = [q2 for q2, f2 in mod.functions() if q2 != qual and any((call_name(c) or "").split(".")[-1] == bare for c in calls_in(f2))]
+    foreign = [m2.rel for m2 in repo.modules(*scope, containing=bare) if m2.rel != mod.rel and any(isinstance(c, ast.Call) and (call_name(c) or "").split(".")[-1] == bare for c in ast.walk(m2.tree))]
+    if not callers or foreign:
+        return False
+    return all(c_ in allowed or (depth > 0 and only_called_from(repo, mod, c_, allowed, depth - 1, scope)) for c_ in callers)
+
+
 __all__ = [n for n in dir() if not n.startswith("_")]
